@@ -1,8 +1,11 @@
 (* C01 — the delta propagation re-establishes the local equations along the ancestor chain. *)
 From Coq Require Import List ZArith Bool Lia.
-From Verif Require Import Lib.Vec2 C01.Model C01.Spec C01.Proofs_Base.
+From Verif Require Import Lib.VecN C01.Model C01.Spec C01.Proofs_Base.
 Import ListNotations.
 Open Scope Z_scope.
+
+Section WithDim.
+Context {D : Dim}.
 
 Definition PosR (sh : list qshape) (R : Z -> racc) : Prop :=
   forall q, In q sh -> nonneg_r (R (q_name q)) = true.
@@ -351,3 +354,5 @@ Proof.
   apply (walk_used_comp sh Hnd Hnz u_np u_snp (fun _ b => b)); auto.
   intros u Hu. apply nonneg_u_iff in Hu. tauto.
 Qed.
+
+End WithDim.
